@@ -25,10 +25,13 @@ TWOPI = 2 * math.pi
 class Sampler:
     """picklable samplers: integer-valued so that every format stores them exactly"""
 
-    def __init__(self, kind, mask=None, salt=0):
-        self.kind, self.mask, self.salt = kind, mask, salt
+    def __init__(self, kind, mask=None, salt=0, delay=0.0):
+        self.kind, self.mask, self.salt, self.delay = kind, mask, salt, delay
 
     def __call__(self, lon, lat):
+        if self.delay:
+            import time
+            time.sleep(self.delay)          # a sampler that reads from a slow medium
         lon = np.asarray(lon) % TWOPI
         a = np.floor(lon / TWOPI * 2048).astype(np.int64) % 2048
         b = np.floor((np.asarray(lat) + math.pi / 2) / math.pi * 2047).astype(np.int64)
@@ -58,7 +61,7 @@ class PosFilter:
         return (tile.pos.n, tile.pos.x, tile.pos.y) in self.acc
 
 
-def _run(base, dflt, override, depth, planetary, parallel, passes, acc, via_builder=False):
+def _run(base, dflt, override, depth, planetary, parallel, passes, acc, via_builder=False, prelude=False):
     """passes: list of samplers; unfiltered (acc None) uses sample_layer (clobber), else sample_layer_filtered;
     `via_builder`: the same through `Builder.toast_base(sampler, depth, is_planet=…, [tile_filter=…])`, one Builder per pass"""
     import toasty.par_util
@@ -69,6 +72,12 @@ def _run(base, dflt, override, depth, planetary, parallel, passes, acc, via_buil
     pio = PyramidIO(base, default_format=dflt)
     with warnings.catch_warnings():
         warnings.simplefilter("ignore")
+        if prelude:
+            # an earlier job of the same session: the same depth sampled in the OTHER coordinate system, into another directory
+            import shutil
+            other = toast.ToastCoordinateSystem.ASTRONOMICAL if planetary else toast.ToastCoordinateSystem.PLANETARY
+            toast.sample_layer(PyramidIO(base + "_pre", default_format="npy"), passes[0], depth, coordsys=other, parallel=1)
+            shutil.rmtree(base + "_pre", ignore_errors=True)
         for s in passes:
             if via_builder:
                 from toasty.builder import Builder
@@ -162,6 +171,11 @@ def main():
     forced_south = {len(configs), len(configs) + 1}
     configs.append(("png", "fits", "f64", False, 2, False))
     configs.append(("npy", "fits", "f32", False, 2, True))
+    # a slow sampler (several seconds a tile): the workers are still busy long after the last tile was handed out
+    slow = set()
+    if h.deep:
+        slow.add(len(configs))
+        configs.append(("npy", None, "f64", False, 1, False))
     try:
         for ci, (dflt, ov, kind, filtered, depth, planetary) in enumerate(configs):
             cs = CS.PLANETARY if planetary else CS.ASTRONOMICAL
@@ -178,9 +192,9 @@ def main():
             else:
                 acc = None
                 leaves = [(depth, x, y) for y in range(2 ** depth) for x in range(2 ** depth)]
-                passes = [Sampler(kind, ("south" if ci in forced_south else rng.choice([None, "south"])) if kind != "rgb" else None, salt=3)]
+                passes = [Sampler(kind, ("south" if ci in forced_south else rng.choice([None, "south"])) if kind != "rgb" else None, salt=3, delay=3.5 if ci in slow else 0.0)]
             results = {}
-            for par in (1, 3):
+            for par in ((1, 2) if ci in slow else (1, 3)):
                 base = os.path.join(root, f"c{ci}_p{par}")
                 os.makedirs(base)
                 # pre-existing content for the clobbering mode: a tile full of a marker value
@@ -197,9 +211,11 @@ def main():
                 # every other configuration goes through the Builder entry point (`toast_base`), which decides the coordinate system
                 # from `is_planet` and hands everything else on
                 via_builder = ci % 2 == 1
-                st, val = run_isolated(_run, (base, dflt, ov, depth, planetary, par, passes, acc, via_builder), 240)
-                h.count("runs", f"{'filtered' if filtered else 'full'}/{wf}/par{par}" + ("/builder" if via_builder else ""))
-                desc = (("Builder.toast_base[" if via_builder else "") + f"{'sample_layer_filtered' if filtered else 'sample_layer'}(depth {depth}, {'planetary' if planetary else 'astronomical'}, default {dflt}, format={ov}, {kind}, parallel={par})"
+                # a third of the runs happen in a process that has just sampled the same depth in the other coordinate system
+                prelude = ci % 3 == 0
+                st, val = run_isolated(_run, (base, dflt, ov, depth, planetary, par, passes, acc, via_builder, prelude), 240)
+                h.count("runs", f"{'filtered' if filtered else 'full'}/{wf}/par{par}" + ("/builder" if via_builder else "") + ("/after-other-system" if prelude else ""))
+                desc = (("in a process that had just sampled the same depth in the other coordinate system: " if prelude else "") + ("Builder.toast_base[" if via_builder else "") + f"{'sample_layer_filtered' if filtered else 'sample_layer'}(depth {depth}, {'planetary' if planetary else 'astronomical'}, default {dflt}, format={ov}, {kind}, parallel={par})"
                         + ("]" if via_builder else ""))
                 if st != "ok":
                     h.violation(f"run:{par}", f"{desc}: {st} {val}", input={"config": [dflt, ov, kind, filtered, depth, planetary], "parallel": par})
